@@ -292,6 +292,12 @@ def trace_inputs(trace, names, harness=None):
         if harness is not None and fn is not None and fn not in (harness if isinstance(harness, list) else [harness]):
             continue
         lhs = st.get('lhs', '')
+        v = st.get('value', {})
+        # a nondet-initialised aggregate appears as one assignment of the whole object: flatten it
+        if isinstance(v, dict) and ('elements' in v or 'members' in v) and \
+                any(n.endswith('[*') and lhs == n[:-2] for n in names):
+            flatten_value(lhs, v, vals)
+            continue
         if lhs in names or any(n.endswith('*') and lhs.startswith(n[:-1]) for n in names):
             v = st.get('value', {})
             d = v.get('data')
@@ -299,6 +305,22 @@ def trace_inputs(trace, names, harness=None):
                 d = str(int(v['binary'], 2))
             vals[lhs] = d
     return vals
+
+
+def flatten_value(prefix, v, out):
+    if not isinstance(v, dict):
+        return
+    if 'elements' in v:
+        for e in v['elements']:
+            flatten_value('%s[%dl]' % (prefix, e.get('index', 0)), e.get('value', {}), out)
+    elif 'members' in v:
+        for m in v['members']:
+            flatten_value('%s.%s' % (prefix, m.get('name', '?')), m.get('value', {}), out)
+    else:
+        d = v.get('data')
+        if d is None and 'binary' in v:
+            d = str(int(v['binary'], 2))
+        out[prefix] = d
 
 
 def run_jobs(jobs, workdir, par=None):
@@ -327,7 +349,7 @@ def native(cmd, timeout=600):
     return out
 
 
-def zw_queries(queries, outdir):
+def zw_queries(queries, outdir, dw=False):
     """Native replay through the real library: refresh /repo/_build's objects from the working tree
     (incremental ninja build), link tools/zwq.cc against LibzwergCore + TestZwAux objects, run the queries.
     Returns list of (count, text) or raises Undecided when the repository build tree is not available."""
@@ -338,9 +360,13 @@ def zw_queries(queries, outdir):
     import glob
     objs = glob.glob(os.path.join(bdir, 'libzwerg/CMakeFiles/TestZwAux.dir/*.o')) + \
         glob.glob(os.path.join(bdir, 'libzwerg/CMakeFiles/LibzwergCore.dir/*.o'))
-    exe = os.path.join(outdir, 'zwq')
+    exe = os.path.join(outdir, 'zwq_dw' if dw else 'zwq')
+    extra = []
+    if dw:
+        objs += glob.glob(os.path.join(bdir, 'libzwerg/CMakeFiles/LibzwergDw.dir/*.o'))
+        extra = ['-DZWQ_DW', '-ldw', '-lelf']
     native(['g++', '-std=c++14', '-O1', '-I%s/libzwerg' % REPO, '-I%s/libzwerg' % bdir, '-I' + bdir,
-            os.path.join(VERIF, 'tools', 'zwq.cc')] + objs + ['-rdynamic', '-o', exe])
+            os.path.join(VERIF, 'tools', 'zwq.cc')] + objs + ['-rdynamic', '-o', exe] + extra)
     rc, out, err, w = run([exe] + list(queries), timeout=120)
     res = []
     for ln in out.split('\n'):
